@@ -183,6 +183,7 @@ type pending struct {
 	pc      uint64
 	static  bool
 	hasRoot bool
+	before  *state.StateDB // copy of the state at a STATICCALL step (for the getter-level comparison)
 }
 
 type tracer struct {
@@ -206,6 +207,8 @@ type tracer struct {
 	evm          *vm.EVM
 	timedOut     bool
 	burn         bool // a SELFDESTRUCT whose beneficiary is the contract itself was executed
+
+	staticEmptyOnly int // static frames after which only the existence of empty accounts differed
 }
 
 type finding struct{ sig, what string }
@@ -225,6 +228,30 @@ func (t *tracer) CaptureEnd(output []byte, gasUsed uint64, d time.Duration, err 
 }
 func (t *tracer) CaptureFault(env *vm.EVM, pc uint64, op vm.OpCode, gas, cost uint64, memory *vm.Memory, stack *vm.Stack, contract *vm.Contract, depth int, err error) error {
 	return nil
+}
+
+// obsDump renders balance, nonce, code and the known storage slots of every known address (a missing
+// account and an empty one look alike)
+func obsDump(st *state.StateDB, addrs map[common.Address]bool, keys map[common.Address]map[common.Hash]bool) string {
+	list := make([]common.Address, 0, len(addrs))
+	for a := range addrs {
+		list = append(list, a)
+	}
+	sort.Slice(list, func(i, j int) bool { return strings.Compare(string(list[i][:]), string(list[j][:])) < 0 })
+	var sb strings.Builder
+	for _, a := range list {
+		fmt.Fprintf(&sb, "%x:%d:%v:%x", a, st.GetNonce(a), st.GetBalance(a), st.GetCode(a))
+		ks := make([]common.Hash, 0, len(keys[a]))
+		for k := range keys[a] {
+			ks = append(ks, k)
+		}
+		sort.Slice(ks, func(i, j int) bool { return strings.Compare(string(ks[i][:]), string(ks[j][:])) < 0 })
+		for _, k := range ks {
+			fmt.Fprintf(&sb, ",%x=%x", k, st.GetState(a, k))
+		}
+		sb.WriteByte(';')
+	}
+	return sb.String()
 }
 
 func stateFingerprint(st *state.StateDB) (common.Hash, int, uint64) {
@@ -267,7 +294,12 @@ func (t *tracer) CaptureState(env *vm.EVM, pc uint64, op vm.OpCode, gas, cost ui
 		root, nlogs, refund := stateFingerprint(st)
 		same := root == p.root && nlogs == p.nlogs && refund == p.refund
 		sameN := root == p.rootN && nlogs == p.nlogs && refund == p.refund
-		if p.static && !same {
+		// a static frame: what the property speaks of — balance, nonce, code, storage of every address, and the
+		// logs (an empty account coming into existence through a value-less CALL to a precompile is not among
+		// them, and shows in the root): compared through the getters over every address / slot seen so far
+		if p.static && !same && p.before != nil && nlogs == p.nlogs && refund == p.refund && obsDump(p.before, t.addrs, t.keys) == obsDump(st, t.addrs, t.keys) {
+			t.staticEmptyOnly++
+		} else if p.static && !same {
 			// the recognised class: STATICCALL is valid (HF5 installs the Spring set) but the Byzantium rules,
 			// which is what enforceRestrictions tests, are not yet on.  Anything else embeds the input.
 			sig := "static-frame-changed-state"
@@ -349,6 +381,9 @@ func (t *tracer) CaptureState(env *vm.EVM, pc uint64, op vm.OpCode, gas, cost ui
 		if t.nestedBudget > 0 {
 			t.nestedBudget--
 			p.root, p.nlogs, p.refund = stateFingerprint(st)
+			if op == vm.STATICCALL {
+				p.before = st.Copy()
+			}
 			if op == vm.CREATE {
 				c := st.Copy()
 				c.SetNonce(contract.Address(), c.GetNonce(contract.Address())+1)
@@ -663,10 +698,33 @@ func runCase(k *tcase, traceOn bool, nestedBudget int, watchdog time.Duration) (
 			// That is core/state behaviour (C09's known finding); here it is only recorded — any other address
 			// whose touch survives a failed frame is a violation.
 			if delAfter := st.Copy().IntermediateRoot(true); delAfter != delBefore {
-				if t.addrs[common.BytesToAddress([]byte{3})] {
+				// core/state keeps an object in the dirty set when its changes are reverted (and the journal does
+				// not undo a touch of 0x03 at all): an EXISTING EMPTY account that the failed frame touched or paid is
+				// deleted at the end of the transaction (C09's finding).  Accepted here only if that explains the root
+				// exactly: some set of touched, pre-existing, empty accounts removed from the pre-state.
+				var cand []common.Address
+				for _, a := range k.Accts {
+					ad := addr0x(a.Addr)
+					if a.Nonce == 0 && big0x(a.Balance).Sign() == 0 && (a.Code == "" || a.Code == "-") && t.addrs[ad] {
+						cand = append(cand, ad)
+					}
+				}
+				explained := false
+				if len(cand) <= 6 {
+					for mask := 1; mask < 1<<uint(len(cand)) && !explained; mask++ {
+						c := buildState(k)
+						for i, ad := range cand {
+							if mask&(1<<uint(i)) != 0 {
+								c.Suicide(ad)
+							}
+						}
+						explained = c.IntermediateRoot(true) == delAfter
+					}
+				}
+				if explained {
 					r.ripemdQuirk = true
 				} else {
-					t.findings = append(t.findings, finding{"failed-frame-touch-survives", fmt.Sprintf("top-level call failed with %q, every getter is as before, but the EIP158 end-of-transaction root changed (a touch survived the revert) and 0x03 was not involved", r.res)})
+					t.findings = append(t.findings, finding{"failed-frame-eip158-root-unexplained", fmt.Sprintf("top-level call failed with %q, every getter is as before, but the EIP158 end-of-transaction root changed and no set of touched empty accounts explains it", r.res)})
 				}
 			}
 		}
@@ -1360,8 +1418,11 @@ func (ch *checker) check(k *tcase, withModel bool) *tracer {
 	}
 	c.Eval(fmt.Sprintf("%s|%s|%s", k.Class, epochOf(k.Height), strings.SplitN(rc, ":", 3)[0]), key)
 	ch.results[rc]++
+	if t.staticEmptyOnly > 0 {
+		c.Count("observed/static-frame-created-or-touched-an-empty-account-only")
+	}
 	if r.ripemdQuirk {
-		c.Count("observed/ripemd-touch-survives-failed-frame (core/state journal exception, see C09)")
+		c.Count("observed/touched-empty-account-deleted-after-failed-frame (core/state dirty set, see C09)")
 	}
 	// ---------------- direct oracle
 	if r.panicked {
